@@ -635,10 +635,13 @@ def handle_end_progs(state: TokenizerState) -> Iterator[TokenInfo]:
     if state.in_braces() or (not state.end_progs):  # in case the state changed above
         return
 
-    if (
-        (state.pos == 0)  # called at start of the line
-        or ((state.in_multi_line_string()) or (state.in_continued_string()))
-    ):
+    if (state.in_multi_line_string()) or (state.in_continued_string()):
+        state.end_progs[-1].join_line(state)
+        state.pos = state.max
+    elif state.in_fstring() or state.in_colon():
+        # neither a brace nor the closing quote on the rest of a line that the literal cannot run past
+        raise TokenError("unterminated f-string literal", (state.lnum, state.pos))
+    elif state.pos == 0:  # called at start of the line
         state.end_progs[-1].join_line(state)
         state.pos = state.max
     # else:
